@@ -889,6 +889,20 @@ func runAll(cases []string, o *hx.Out, withCases bool) {
 	}
 }
 
+// timedOut: the observation reports an expired deadline: HANG (hx.Guard), or a connection classified H
+// (history token "H,..." / tamper field "H:...")
+func timedOut(obs string) bool {
+	if hx.TimedOut(obs) {
+		return true
+	}
+	for _, f := range strings.FieldsFunc(obs, func(r rune) bool { return r == ' ' || r == ';' }) {
+		if f == "H" || strings.HasPrefix(f, "H,") || strings.HasPrefix(f, "H:") || strings.HasPrefix(f, "H!") {
+			return true
+		}
+	}
+	return false
+}
+
 func main() {
 	// gmtls prints "handshake error : ..." on stdout for every failed handshake
 	if devnull, err := os.OpenFile(os.DevNull, os.O_WRONLY, 0); err == nil {
@@ -899,6 +913,7 @@ func main() {
 		seed, _ := strconv.ParseUint(os.Args[2], 10, 64)
 		o := hx.NewOut(os.Args[4], os.Args[5])
 		runAll(gen(seed, os.Args[3]), o, true)
+		o.RetryIf(timedOut, runCase) // a case that ran out of time in the parallel pass is re-run alone with 10x deadlines
 		o.Close()
 		return
 	}
@@ -906,6 +921,7 @@ func main() {
 		fx = loadFixtures()
 		o := hx.NewOut(os.DevNull, os.Args[3])
 		runAll(hx.ReadLines(os.Args[2]), o, false)
+		o.RetryIf(timedOut, runCase)
 		o.Close()
 		return
 	}
